@@ -466,14 +466,16 @@ pub fn gen_building(rng: &mut Rng, p: &Profile) -> Building {
 
     // --- metadata
     if p.f_meta {
+        // legacy spellings of the three keys (the parser maps them to the CTE_ names) in a tenth of the cases
+        let legacy = rng.chance(0.1);
         if rng.chance(0.5) {
-            b.meta.push(("CTE_AREAREF".into(), gen_area_token(rng)));
+            b.meta.push((if legacy { "Area_ref" } else { "CTE_AREAREF" }.into(), gen_area_token(rng)));
         }
         if rng.chance(0.4) {
-            b.meta.push(("CTE_KEXP".into(), gen_kexp_token(rng)));
+            b.meta.push((if legacy { "kexp" } else { "CTE_KEXP" }.into(), gen_kexp_token(rng)));
         }
         if rng.chance(0.4) {
-            b.meta.push(("CTE_LOCALIZACION".into(), rng.pick(&LOCS).to_string()));
+            b.meta.push((if legacy { "Localizacion" } else { "CTE_LOCALIZACION" }.into(), rng.pick(&LOCS).to_string()));
         }
         if rng.chance(0.25) {
             b.meta.push(("CTE_RED1".into(), gen_red_token(rng)));
